@@ -226,6 +226,9 @@ func splitPath(p string) []string {
 	return strings.FieldsFunc(p, func(r rune) bool { return r == '/' })
 }
 
+// case file of the block-level path walk (Corr/PathLoads.v); nil in replays
+var cfPathLoads *CaseFile
+
 func runPathSelInput(rep *Report, in PathSelInput, cf *CaseFile) {
 	fail := func(prop, sig, what string, exp, got interface{}) {
 		rep.Fail(prop, "pathsel/"+sig, what, in, exp, got)
@@ -330,6 +333,32 @@ func runPathSelInput(rep *Report, in PathSelInput, cf *CaseFile) {
 	if wo.Class == "panic" {
 		fail("C03", "walk-panic", "the traversal panicked", nil, "panic")
 		return
+	}
+	if cfPathLoads != nil && in.Target == 0 && !in.MatchPath && wo.Class != "panic" {
+		// the traversal's own storage requests (up to the match), against the block-level walk of the model
+		dag := dumpDAG(bt.st, bt.cids[in.Tree.ID], map[string]*DNode{})
+		var order []*DNode
+		preorder(dag, &order)
+		if len(order) <= 400 {
+			index := firstIndex(order)
+			reads := bt.st.Reads
+			if readsAtMatch >= 0 {
+				reads = reads[:readsAtMatch]
+			}
+			idx := make([]int, len(reads))
+			for i, c := range reads {
+				if ix, ok := index[c.KeyString()]; ok {
+					idx[i] = ix
+				} else {
+					idx[i] = 999999
+				}
+			}
+			var hs []string
+			for _, sg := range splitPath(in.Path) {
+				hs = append(hs, fmt.Sprintf("(%s, %s)", coqBytes([]byte(sg)), coqBytes(mhash(sg))))
+			}
+			cfPathLoads.Add(fmt.Sprintf("mk_pload %s %s %s %s", coqBlk(dag), coqBytes([]byte(in.Path)), coqList(hs), coqNList(idx)), in)
+		}
 	}
 	segs := splitPath(in.Path)
 	want := findPath(in.Tree, segs)
@@ -482,6 +511,8 @@ func runPathSelInput(rep *Report, in PathSelInput, cf *CaseFile) {
 
 func scnPathSel(rep *Report, rng *Rng, tier string, outdir string) {
 	cf := NewCaseFile(rep, outdir, "cases_pathsel", "UV.Corr.PathSel", "mismatches_pathsel", 100)
+	cfPathLoads = NewCaseFile(rep, outdir, "cases_pload", "UV.Corr.PathLoads", "mismatches_pload", 40)
+	defer func() { cfPathLoads.Flush(); cfPathLoads = nil }()
 	rule := "random trees (depth <= 3; multi-block files; plain and sharded directories with fanout 8/16/256; names with spaces, unicode, %XX escapes, '.', '..') x every path of the tree + perturbed paths (extra / leading / trailing slashes, truncated and extended names, percent-encoded variants, suffixes of real names) x 4 targets x matchPath; real traversal.WalkMatching with the registered reifiers; the built selector is read back and compared with the Coq builder, the SelectionMatch visits with the Coq walk; matched files must carry their exact bytes, matched directories their exact entry names; distinct = distinct (tree, path, target, matchPath); non-trivial = path with at least 1 segment"
 	for _, p := range []string{"C03", "C05", "C06", "C20"} {
 		rep.P(p).Rule = rule
@@ -532,6 +563,11 @@ func scnPathSel(rep *Report, rng *Rng, tier string, outdir string) {
 			if p != "" && rng.Intn(2) == 0 {
 				alts := []string{p + "/", "/" + p, strings.ReplaceAll(p, "/", "//"), p + "x", p[:len(p)-1], p + "/nope", strings.ReplaceAll(p, " ", "%20"), strings.ReplaceAll(p, "a", "%61"), p[1:]}
 				all = append(all, alts[rng.Intn(len(alts))])
+				// an integer in place of the last name (a list index is not a directory entry)
+				{
+					segs := splitPath(p)
+					all = append(all, strings.Join(append(append([]string{}, segs[:len(segs)-1]...), fmt.Sprint(rng.Intn(3))), "/"))
+				}
 				// a proper suffix of the last name
 				segs := splitPath(p)
 				last := segs[len(segs)-1]
